@@ -27,6 +27,8 @@ class Recorder:
 
 def phase_of(proc):
     t = proc.target
+    if t is None:
+        return 'X'        # the process has terminated (crashed): the failure surfaces when its event is processed
     name = type(t).__name__
     if name == 'Initialize':
         return 'I'
@@ -53,6 +55,8 @@ class FifoRun:
         self._orig_put = dev.put
         dev.put = self._tapped_put
         self.held = {}
+        self.lost = []                # (instant, packet) discarded by the server (wire loss)
+        self._in_hand = None
 
     # -- taps ---------------------------------------------------------------------------------
     def _tapped_put(self, packet):
@@ -81,62 +85,90 @@ class FifoRun:
         self.monitors.append([mon, included, 0])
 
     # -- main loop ----------------------------------------------------------------------------
-    def run(self, max_steps=20000):
+    def before_step(self):
+        """to be called before every `env.step()` (several FifoRuns may share one environment)"""
         env, dev = self.env, self.dev
+        t = env.peek()
+        if t > env.now:
+            # the clock advance itself changes nothing of the device
+            self.acts.append(f'tick {bits(t)}')
+            self.obs.append(f'tick - | {self.snap(now=t)}')
+        self._tgt0 = dev.action.target
+        self._ph0 = phase_of(dev.action)
+        self._trig0 = getattr(self._tgt0, 'triggered', False)
+        self.events.clear()
+        if self.draws is not None:
+            self.draws.taken = []
+
+    def after_step(self):
+        dev = self.dev
+        tgt0, ph0, trig0 = self._tgt0, self._ph0, self._trig0
+        tgt1 = dev.action.target
+        label = None
+        if tgt1 is not tgt0:
+            label = {'I': 'init', 'H': 'resume', 'T': 'fire'}.get(ph0, '?' + ph0)
+        elif not trig0 and getattr(tgt1, 'triggered', False):
+            label = 'handoff'
+        outs = [e for e in self.events if e[0] == 'out']
+        if label is not None:
+            if label == 'resume':
+                # the packet the store handed to the server: the value of the get event it resumed from
+                self._in_hand = tgt0.value
+                x = y = 0.0
+                if self.draws is not None:
+                    tk = self.draws.taken
+                    x = tk[0] if len(tk) > 0 else 0.0
+                    y = tk[1] if len(tk) > 1 else 0.0
+                self.acts.append(f'resume {bits(x)} {bits(y)}')
+            else:
+                self.acts.append(label)
+            if outs:
+                p = outs[0][1]
+                o = f'dep {p.packet_id} c{COLORS.get(p.color, 9)}'
+                self._in_hand = None
+            elif label in ('resume', 'fire') and phase_of(dev.action) in ('W', 'H') and self._in_hand is not None:
+                # the server is back at `store.get()` without having forwarded the packet it held: discarded
+                p = self._in_hand
+                o = f'lost {p.packet_id}'
+                self.lost.append((self.env.now, p))
+                self._in_hand = None
+            else:
+                o = '-'
+            self.obs.append(f'{label} {o} | {self.snap()}')
+        elif outs:
+            self.obs.append(f'UNLABELLED-OUT {outs[0][1].packet_id}')
+            self.acts.append('fire')
+        for m in self.monitors:
+            n = len(m[0].sizes)
+            while m[2] < n:
+                self.acts.append(f'sample {1 if m[1] else 0}')
+                self.obs.append(f'sample {m[0].sizes[m[2]]} {m[0].sizes_byte[m[2]]}')
+                m[2] += 1
+
+    def run(self, max_steps=20000):
+        env = self.env
         steps = 0
         while env.peek() < INF and steps < max_steps:
             steps += 1
-            t = env.peek()
-            if t > env.now:
-                # the clock advance itself changes nothing of the device
-                self.acts.append(f'tick {bits(t)}')
-                self.obs.append(f'tick - | {self.snap(now=t)}')
-            tgt0 = dev.action.target
-            ph0 = phase_of(dev.action)
-            trig0 = tgt0.triggered
-            self.events.clear()
-            if self.draws is not None:
-                self.draws.taken = []
+            self.before_step()
             with quiet():
                 env.step()
-            tgt1 = dev.action.target
-            label = None
-            if tgt1 is not tgt0:
-                label = {'I': 'init', 'H': 'resume', 'T': 'fire'}.get(ph0, '?' + ph0)
-            elif not trig0 and tgt1.triggered:
-                label = 'handoff'
-            outs = [e for e in self.events if e[0] == 'out']
-            if label is not None:
-                if label == 'resume':
-                    x = y = 0.0
-                    if self.draws is not None:
-                        tk = self.draws.taken
-                        x = tk[0] if len(tk) > 0 else 0.0
-                        y = tk[1] if len(tk) > 1 else 0.0
-                    self.acts.append(f'resume {bits(x)} {bits(y)}')
-                else:
-                    self.acts.append(label)
-                if outs:
-                    p = outs[0][1]
-                    o = f'dep {p.packet_id} c{COLORS.get(p.color, 9)}'
-                elif label in ('resume', 'fire') and phase_of(dev.action) in ('W', 'H') and self.lost_hint():
-                    o = f'lost {self.lost_hint()}'
-                else:
-                    o = '-'
-                self.obs.append(f'{label} {o} | {self.snap()}')
-            elif outs:
-                self.obs.append(f'UNLABELLED-OUT {outs[0][1].packet_id}')
-                self.acts.append('fire')
-            for m in self.monitors:
-                n = len(m[0].sizes)
-                while m[2] < n:
-                    self.acts.append(f'sample {1 if m[1] else 0}')
-                    self.obs.append(f'sample {m[0].sizes[m[2]]} {m[0].sizes_byte[m[2]]}')
-                    m[2] += 1
+            self.after_step()
         return self
 
-    def lost_hint(self):
-        return getattr(self, '_lost', None)
+
+def run_many(env, runs, max_steps=20000):
+    """several devices on one environment (Cable): every kernel step is offered to every FifoRun"""
+    steps = 0
+    while env.peek() < INF and steps < max_steps:
+        steps += 1
+        for r in runs:
+            r.before_step()
+        with quiet():
+            env.step()
+        for r in runs:
+            r.after_step()
+    return runs
 
 
 def make_packet(env, pid, flow, size, src='src'):
